@@ -378,7 +378,7 @@ def knife(rnd, far=False, extreme=False):
     sgn = rnd.choice([1, 1, 0, -1])            # 1: infeasible by eps, 0: exactly one point along the gadget, -1: feasible by eps
     # `freeray` LPs are feasible only at points beyond the library's infinity (1e150): no definitive answer can be demanded for
     # them (C03), only that a reported INFEASIBLE is proved (C02): they are generated on request only
-    style = "freeray" if far else rnd.choice(["bound", "bound", "sum", "big", "chain", "tied", "tied", "tinycoef"])
+    style = "freeray" if far else rnd.choice(["bound", "bound", "sum", "big", "chain", "tied", "tied", "tinycoef", "rangetop", "rangetop"])
     # 12000+: below what the last working precision of the exact driver (12 levels from 128 bits, x1.5 each) can resolve
     # extreme: margins the last working precision of the exact driver (12 levels from 128 bits, x1.5 each) cannot resolve; no
     # definitive answer can be demanded there, only that a definitive answer given is certified
@@ -452,6 +452,31 @@ def knife(rnd, far=False, extreme=False):
             r3 = Row(None, "G", F(-10), 0)
             r3.coef[z] = F(1)
             new_rows.append(r3)
+    elif style == "rangetop":
+        # x_i >= a_i (bounds or G rows) and a range row  c - w <= sum x_i <= c  with c = sum a_i - eps: the *upper* side of the range
+        # decides (its multiplier in a proof of infeasibility is negative, the width of the range enters the proof); the a_i are
+        # often of size 1e11 and not representable, so that the double level cannot tell the three cases apart
+        n = rnd.randint(2, 3)
+        if rnd.random() < 0.6:
+            a_ = [F(10 ** rnd.choice([9, 11, 12]), rnd.choice([3, 7, 11, 13])) for _ in range(n)]
+            if eps and abs(eps) > F(1, 2 ** 40):
+                eps = eps / 2 ** 30
+        else:
+            a_ = [rnd_num(rnd, "int") for _ in range(n)]
+        xs = [Col(None, rnd_num(rnd, "int"), NINF, INF) for _ in range(n)]
+        for x, v in zip(xs, a_):
+            if rnd.random() < 0.6:
+                x.lo = v
+            else:
+                g = Row(None, "G", v, 0)
+                g.coef[x] = F(1)
+                new_rows.append(g)
+        w_ = F(rnd.randint(1, 9))
+        r = Row(None, "R", sum(a_) - eps - w_, w_)
+        for x in xs:
+            r.coef[x] = F(1)
+        new_rows.append(r)
+        new_cols = xs
     elif style == "bound":
         # x_j <= lo_j - eps - sum a_k (x_k - lo_k)  with a_k >= 0, x_k >= lo_k
         lo = rnd_num(rnd, "int")
